@@ -324,15 +324,16 @@ impl<'a> Read for SimStream<'a> {
             return Ok(0);
         }
         self.consecutive_eof = 0;
-        // which segment are we in? never cross a segment boundary in one call
-        let (seg, seg_off, seg_len): (u8, usize, usize) = if self.pos < base {
-            (0, self.pos, base)
+        // which segment does the read start in? (a read may run on into the following segment,
+        // as a read from a larger file would)
+        let seg: u8 = if self.pos < base {
+            0
         } else if self.pos < base + self.data.len() {
-            (1, self.pos - base, self.avail)
+            1
         } else {
-            (2, self.pos - base - self.data.len(), self.suffix.len())
+            2
         };
-        let mut max = buf.len().min(left).min(seg_len - seg_off);
+        let mut max = buf.len().min(left);
         let lp = self.pos.saturating_sub(base); // logical position inside the replay
         if let (1, Some(o)) = (seg, self.spec.hard_error_offset) {
             // deliver up to the fault position, never across it
@@ -375,12 +376,21 @@ impl<'a> Read for SimStream<'a> {
             }
         };
         let n = n.min(max).max(1);
-        let src: &[u8] = match seg {
-            0 => &self.prefix[seg_off..seg_off + n],
-            1 => &self.data[seg_off..seg_off + n],
-            _ => &self.suffix[seg_off..seg_off + n],
-        };
-        buf[..n].copy_from_slice(src);
+        // copy n bytes out of prefix ++ data ++ suffix starting at self.pos
+        let mut done = 0usize;
+        while done < n {
+            let p = self.pos + done;
+            let (src, off): (&[u8], usize) = if p < base {
+                (&self.prefix[..], p)
+            } else if p < base + self.data.len() {
+                (self.data, p - base)
+            } else {
+                (&self.suffix[..], p - base - self.data.len())
+            };
+            let take = (n - done).min(src.len() - off);
+            buf[done..done + take].copy_from_slice(&src[off..off + take]);
+            done += take;
+        }
         self.pos += n;
         if self.position() > self.high_water {
             self.high_water = self.position();
